@@ -209,6 +209,35 @@ impl<'a> Run<'a> {
         }
     }
 
+    /// checks that hold for EVERY op, inside or outside the exactness preconditions:
+    /// the device never saw a command exceeding its limits (it enforces what it advertises),
+    /// every bulk transfer was given the timeout in force (the initial 500 ms until `open` has
+    /// read the device's response time, that value afterwards), and the call took at least as
+    /// long as the pending acknowledges it honoured asked it to wait.
+    fn common_checks(&mut self, i: usize, wire: &[Wire], elapsed_ms: u64, timeout_before: u64) {
+        let herr = self.usb.lock().take_host_errors();
+        if let Some(e) = herr.first() {
+            self.violation("host-exceeds-limits", format!("device flagged: {e}"), i);
+        }
+        for w in wire {
+            let t = match w {
+                Wire::Send { timeout_ms, .. } | Wire::Recv { timeout_ms, .. } | Wire::Control { timeout_ms, .. } => *timeout_ms,
+                _ => continue,
+            };
+            if t != timeout_before {
+                self.violation("timeout", format!("a transfer was given a timeout of {t} ms, the configured one is {timeout_before} ms"), i);
+                break;
+            }
+        }
+        let st = wire_stat(wire);
+        if elapsed_ms < st.sleep_ms {
+            self.violation("pending-not-awaited", format!("{} pending acknowledges asked for {} ms in total, the call returned after {elapsed_ms} ms", st.sleeps, st.sleep_ms), i);
+        }
+        if st.sleep_ms > 0 {
+            self.rep.count("ops-with-nonzero-pending-wait");
+        }
+    }
+
     fn suffix(&self, wire: &[Wire]) -> String {
         format!("| {} txn={}", wire_stat(wire).show(), self.usb.lock().txn)
     }
@@ -216,11 +245,15 @@ impl<'a> Run<'a> {
     fn step(&mut self, i: usize) {
         let op = self.spec.ops[i].clone();
         let txn0 = self.usb.lock().txn;
+        let timeout_before = dur_ms(self.h.timeout_duration());
+        let started = std::time::Instant::now();
         match op {
             Op::Open => {
                 let r = catch(|| self.h.open().map_err(|e| control_error_name(&e)));
+                let elapsed = started.elapsed().as_millis() as u64;
                 let wire = self.usb.lock().take_wire();
                 let _ = self.usb.lock().take_access();
+                self.common_checks(i, &wire, elapsed, timeout_before);
                 let txns = split_txns(&wire);
                 let ans = match &r {
                     Err(()) => "panic".to_string(),
@@ -298,8 +331,10 @@ impl<'a> Run<'a> {
                         done += 1;
                     }
                 });
+                let elapsed = started.elapsed().as_millis() as u64;
                 let wire = self.usb.lock().take_wire();
                 let _ = self.usb.lock().take_access();
+                self.common_checks(i, &wire, elapsed, timeout_before);
                 let txns = split_txns(&wire);
                 let ans = if r.is_err() { "panic".to_string() } else { format!("ok {done}") };
                 if done != count && self.host.opened && self.host.cfg_cmd >= 24 && self.host.cfg_ack > 12 && self.plan_ok() {
@@ -318,9 +353,19 @@ impl<'a> Run<'a> {
             Op::Read { addr, n } => {
                 let mut buf = vec![0xEEu8; n];
                 let r = catch(|| self.h.read(addr, &mut buf).map_err(|e| control_error_name(&e)));
+                let elapsed = started.elapsed().as_millis() as u64;
                 let wire = self.usb.lock().take_wire();
                 let access = self.usb.lock().take_access();
-                let herr = self.usb.lock().take_host_errors();
+                self.common_checks(i, &wire, elapsed, timeout_before);
+                let herr: Vec<String> = vec![];
+                // a ReadMem command is 24 bytes: with a smaller negotiated maximum command length
+                // a (non-empty) read must be refused and nothing may go on the wire
+                if self.host.opened && self.host.cfg_cmd < 24 && n > 0 {
+                    if !matches!(r, Ok(Err(_))) || !wire.is_empty() {
+                        self.violation("read-ignores-max-cmd", format!("read with a negotiated maximum command length of {}: {:?}, {} wire events", self.host.cfg_cmd, r, wire.len()), i);
+                    }
+                    self.rep.count("read:refused(maxCmd<24)");
+                }
                 let txns = split_txns(&wire);
                 let ans = match &r {
                     Err(()) => "panic".to_string(),
@@ -397,9 +442,11 @@ impl<'a> Run<'a> {
                 let before_lo = if in_space && n > 0 { self.usb.lock().mem.read(addr.wrapping_sub(4), 4) } else { vec![] };
                 let before_hi = if in_space && n > 0 { self.usb.lock().mem.read(addr.wrapping_add(n as u64), 4) } else { vec![] };
                 let r = catch(|| self.h.write(addr, &data).map_err(|e| control_error_name(&e)));
+                let elapsed = started.elapsed().as_millis() as u64;
                 let wire = self.usb.lock().take_wire();
                 let access = self.usb.lock().take_access();
-                let herr = self.usb.lock().take_host_errors();
+                self.common_checks(i, &wire, elapsed, timeout_before);
+                let herr: Vec<String> = vec![];
                 let txns = split_txns(&wire);
                 let ans = match &r {
                     Err(()) => "panic".to_string(),
@@ -656,6 +703,19 @@ fn main() {
         if rep.evaluations > 1500 {
             rep.flush_model(&args.camdrv);
         }
+    }
+
+    // pending acknowledges whose announced time-outs must really be waited for: 20 ms each (the
+    // elapsed-time oracle of `common_checks` bites), and 258 ms = 0x0102 (byte order of the field)
+    for (ms, plan, retry) in [(20u16, vec![2u16, 0, 1], 4u16), (258, vec![1, 0, 0, 0], 2), (3, vec![1, 2], 3)] {
+        let mut ops = vec![Op::Open, Op::Retry(retry), Op::Dev { mc: 64, ma: 64, ms, plan }];
+        for n in [1usize, 52, 53, 120] {
+            ops.push(Op::Write { addr: 0x7000, n, pat: n as u64 });
+            ops.push(Op::Read { addr: 0x7000, n });
+        }
+        let spec = SessionSpec { seed: 9, sbrm_addr: 0x1_0000, adv_cmd: 64, adv_ack: 64, resp_ms: 7, ops, model: true };
+        run_session(&mut rep, &spec);
+        rep.count("sessions:timed-pending-waits");
     }
 
     // pending acks that announce a non-zero timeout (the host really sleeps): one short session
